@@ -40,6 +40,10 @@ MUTSETS = {
     'late': ['SimplifySymbolNames', 'ReplaceByVariable'],
     'arith': ['ArithmeticSimplifyConstant'],
     'fresh': ['Constants', 'IntroduceFreshVariable'],
+    'bvbool': ['BVDoubleNegation', 'BVElimBVComp', 'BVTransformToBool',
+               'BoolDoubleNegation', 'BoolDeMorgan', 'BoolXORRemoveConstant',
+               'BoolXOREliminateBinary', 'BVNormalizeConstants',
+               'BVSimplifyConstants', 'BVExtractConstants'],
     'erase': ['EraseNode'],
     'core': ['EraseNode', 'ReplaceByChild', 'Constants'],
     'elim': ['EliminateVariable', 'LetSubstitution'],
